@@ -43,21 +43,35 @@ def leaf_text(t):
     return s
 
 
-def render_geom(t, parent=None):
+def render_geom(t, parent=None, rng=None):
+    """MCNP text of a geometry tree.  With rng (a random.Random or the style names 'pairs1', 'pairs2', 'pairs3')
+    redundant parentheses are written around runs of operands of one operator: `-1 2 (-3 4)` means `-1 2 -3 4`."""
     k = t[0]
     if k == 'S':
         return leaf_text(t)
     if k == 'C':
         return '#%d' % t[1]
     if k == 'N':
-        return '#(' + render_geom(t[1]) + ')'
+        return '#(' + render_geom(t[1], None, rng) + ')'
     parts = []
     for kid in t[1:]:
-        s = render_geom(kid, k)
+        s = render_geom(kid, k, rng)
         if kid[0] in ('*', ':') and k == '*' and kid[0] == ':':
             s = '(' + s + ')'
         parts.append(s)
-    return (' ' if k == '*' else ':').join(parts)
+    sep = ' ' if k == '*' else ':'
+    if isinstance(rng, str) and k == '*' and len(parts) >= 4:
+        # lattice cells: the bounding surfaces grouped in pairs
+        first = {'pairs1': 2, 'pairs2': 0, 'pairs3': len(parts) - 2 - len(parts) % 2}[rng]
+        head, rest = parts[:first], parts[first:]
+        groups = ['(' + sep.join(rest[i:i + 2]) + ')' if len(rest[i:i + 2]) == 2 else rest[i] for i in range(0, len(rest), 2)]
+        parts = head + groups
+    elif rng is not None and not isinstance(rng, str) and len(parts) >= 3 and rng.random() < 0.8:
+        i = rng.randrange(0, len(parts) - 1)
+        j = rng.randrange(i + 2, len(parts) + 1)
+        if j - i < len(parts):
+            parts = parts[:i] + ['(' + sep.join(parts[i:j]) + ')'] + parts[j:]
+    return sep.join(parts)
 
 
 PLUS_SPELLING = [False]      # when set, positive transformation entries are written with an explicit '+'
@@ -125,7 +139,8 @@ def cell_card(c, deck):
         parts.append('0')
     else:
         parts.append('%d %s' % (c['mat'], c['rhotxt'] or '-1.0'))
-    parts.append(render_geom(c['geom']))
+    par = c.get('parens')
+    parts.append(render_geom(c['geom'], None, random.Random(par) if isinstance(par, int) else par))
     nfixed = len(parts)
     parts += list(c.get('kw_front', []))       # cell parameters the conversion has no use for (VOL, NONU, TMP, ...)
     paramcards = bool(deck.get('paramcards'))     # U and FILL given on data cards (one entry per cell) instead
@@ -194,6 +209,11 @@ def _tr_inline(tr, spell, deck):
         return '(' + ' '.join(tr_params_star(tr)) + ' -1)'
     if spell == '13m':
         return '(' + ' '.join(tr_params(tr)) + ' -1)'
+    if spell in ('6', 'star6'):     # two rows of the matrix, the third is their cross product (proper rotations only)
+        m = tr['m']
+        det = (m[0] * (m[4] * m[8] - m[5] * m[7]) - m[1] * (m[3] * m[8] - m[5] * m[6]) + m[2] * (m[3] * m[7] - m[4] * m[6]))
+        full = tr_params_star(tr) if spell == 'star6' else tr_params(tr)
+        return '(' + ' '.join(full[:9] if det > 0 else full) + ')'
     if spell in ('3', 'star3'):     # star3: *TRCL=(dx dy dz) / *FILL=n (dx dy dz): the star is a no-op without angles
         return '(' + ' '.join(tr_params(tr, '3')) + ')'
     if spell == '13':
@@ -262,7 +282,7 @@ def _concretise(deck, title):
         else:
             lines.append(wrap_card('tr%d %s' % (t['n'], ' '.join(tr_params(t, t.get('spell', '12'))))))
     for n, (o, m) in deck['_trtable']:
-        lines.append(wrap_card('tr%d %s' % (n, ' '.join(tr_params({'o': o, 'm': m})))))
+        lines.append(wrap_card('tr%d %s' % (n, _tr_inline({'o': o, 'm': m}, '6' if deck.get('tr6') else '12', deck)[1:-1])))
     mats = {c['mat'] for c in deck['cells'] if c['mat']}
     given = {m['n'] for m in deck.get('mats', [])}
     for m in deck.get('mats', []):
@@ -388,6 +408,20 @@ def irrelevant_keywords(deck, rng):
         c['kw_front'] = [rng.choice(IRRELEVANT_KW)] if rng.random() < 0.6 else []
         c['kw_back'] = [rng.choice(IRRELEVANT_KW)] if rng.random() < 0.6 else []
     return deck
+
+
+def imp_datacards(deck, style):
+    """Move the importances of the cell cards to an IMP:N data card (one entry per cell card, in card order),
+    written as reals: the same numbers.  Decks with LIKE cells or IMP cards of their own are left alone."""
+    if deck.get('impcards') or any(c.get('like') or c.get('impsrc', 'cell') != 'cell' for c in deck['cells']):
+        return False
+    forms = (['%d.0', '%d', '%d.'], ['%d.', '%d.0', '%d.0'], ['%d.0', '%d.0', '%d'])[style % 3]
+    toks = []
+    for i, c in enumerate(deck['cells']):
+        c['impsrc'] = 'data'
+        toks.append(forms[i % 3] % c['imp'])
+    deck['impcards'] = [{'par': 'n', 'tokens': toks}]
+    return True
 
 
 def simple_materials(deck, rhotxt='-1.0'):
